@@ -312,4 +312,110 @@ func runC21(c *Ctx) {
 		return true
 	})
 	c.Check(okErr, "shard-size-per-zone", construct+"#too-small-zone", p.Pos(fn.Decl.Pos()), "zone-truncated", "a zone with fewer nodes than take must be reported as an error")
+
+	// every pick finds a node: the search for the next node that is not picked yet goes once around the
+	// WHOLE section list of the zone, starting at the random position and wrapping past the end. Since
+	// take <= number of nodes of the zone (checked above), a full lap always meets an unpicked node; a walk
+	// that stops at the end of the list leaves the tenant with fewer nodes than configured.
+	var lap *ast.RangeStmt
+	var lapFor *ast.ForStmt
+	bind := shapeBind{}
+	ast.Inspect(fn.Body(), func(nd ast.Node) bool {
+		var body *ast.BlockStmt
+		okHead := false
+		switch v := nd.(type) {
+		case *ast.RangeStmt:
+			b := shapeBind{}
+			if v.Key != nil && v.Value == nil && matchShape("len(§S)", canon(v.X), b) {
+				b["§j"] = canon(v.Key)
+				body, okHead, bind = v.Body, true, b
+				if lapBodyOK(p, body, bind) {
+					lap = v
+				}
+			}
+		case *ast.ForStmt:
+			b := shapeBind{}
+			if v.Init != nil && v.Cond != nil && v.Post != nil && matchShape("§j:=0", stmtText(p, v.Init), b) && matchShape("§j<len(§S)", canon(v.Cond), b) && matchShape("§j++", stmtText(p, v.Post), b) {
+				body, okHead, bind = v.Body, true, b
+				if lapBodyOK(p, body, bind) {
+					lapFor = v
+				}
+			}
+		}
+		_ = okHead
+		return true
+	})
+	pickOK := lap != nil || lapFor != nil
+	why := "no loop of the form `for j := range len(S) { idx := (start + j) % len(S); sec := S[idx]; … }` was found around the pick"
+	if pickOK {
+		// the only way to move on without picking is the already-selected test; the pick ends the lap
+		var body *ast.BlockStmt
+		if lap != nil {
+			body = lap.Body
+		} else {
+			body = lapFor.Body
+		}
+		paths, err := enumPaths(body.List[2:])
+		if err != nil {
+			pickOK, why = false, err.Error()
+		}
+		for _, pth := range paths {
+			picked := false
+			for _, a := range pth.Acts {
+				if as, ok := a.(*ast.AssignStmt); ok && len(as.Rhs) == 1 {
+					if call, ok := unparen(as.Rhs[0]).(*ast.CallExpr); ok {
+						if id, ok := call.Fun.(*ast.Ident); ok && id.Name == "append" {
+							picked = true
+						}
+					}
+				}
+			}
+			skippedBecauseSelected := false
+			for _, cnd := range pth.Conds {
+				if id, ok := unparen(cnd.Atom).(*ast.Ident); ok && cnd.Pol {
+					o := objOf(info, id)
+					ast.Inspect(body, func(x ast.Node) bool {
+						if as, ok := x.(*ast.AssignStmt); ok && len(as.Lhs) == 2 && len(as.Rhs) == 1 && objOf(info, as.Lhs[1]) == o {
+							if ix, ok := unparen(as.Rhs[0]).(*ast.IndexExpr); ok {
+								if _, isMap := info.TypeOf(ix.X).Underlying().(*types.Map); isMap {
+									skippedBecauseSelected = true
+								}
+							}
+						}
+						return true
+					})
+				}
+			}
+			switch {
+			case picked && pth.End != "break" && pth.End != "return":
+				pickOK, why = false, "after a node is picked the search goes on: more than one node per draw"
+			case !picked && pth.End == "next" && !skippedBecauseSelected:
+				pickOK, why = false, "a section is passed over for a reason other than `its node is already picked`"
+			case !picked && pth.End != "next":
+				pickOK, why = false, "the search ends without picking a node"
+			}
+		}
+	}
+	c.Check(pickOK, "shard-size-per-zone", construct+"#every-draw-picks-a-node", p.Pos(fn.Decl.Pos()), "pick-walk-not-a-full-lap", why)
+}
+
+// lapBodyOK: first statement `idx := (start + j) % len(S)`, second `sec := S[idx]`.
+func lapBodyOK(p *Prog, body *ast.BlockStmt, b shapeBind) bool {
+	if len(body.List) < 3 {
+		return false
+	}
+	b1 := shapeBind{}
+	for k, v := range b {
+		b1[k] = v
+	}
+	if !matchShape("§idx:=(§start+§j)%len(§S)", stmtText(p, body.List[0]), b1) && !matchShape("§idx:=(§j+§start)%len(§S)", stmtText(p, body.List[0]), b1) {
+		return false
+	}
+	if !matchShape("§sec:=§S[§idx]", stmtText(p, body.List[1]), b1) {
+		return false
+	}
+	for k, v := range b1 {
+		b[k] = v
+	}
+	return true
 }
